@@ -157,6 +157,10 @@ func (g *G) leaf(o tyOpts) *Ty {
 		return ReflectTypeT()
 	case 16:
 		return ContextT()
+	case 19:
+		if g.chance(50) {
+			return HlistT()
+		}
 	case 17, 18:
 		if c := g.refCandidates(false); len(c) > 0 {
 			return StructRefT(c[g.R.IntN(len(c))])
@@ -170,8 +174,18 @@ func (g *G) ty(o tyOpts) *Ty {
 		return g.leaf(o)
 	}
 	in := tyOpts{tps: o.tps, depth: o.depth + 1}
+	if g.JSON && g.chance(3) {
+		// the loose cases: only used for the never-panics part
+		switch g.R.IntN(3) {
+		case 0:
+			return AnyT()
+		case 1:
+			return OptionT(PtrT(g.leaf(in)), true)
+		}
+		return OptionT(SliceT(g.leaf(in)), true)
+	}
 	if g.JSON {
-		switch g.R.IntN(11) {
+		switch g.R.IntN(10) {
 		case 0, 1:
 			return SliceT(g.ty(in))
 		case 2:
@@ -193,15 +207,6 @@ func (g *G) ty(o tyOpts) *Ty {
 			return OptionT(e, false)
 		case 9:
 			return Tuple2T(g.ty(in), g.ty(in))
-		case 10:
-			// the loose cases: only used for the never-panics part
-			switch g.R.IntN(3) {
-			case 0:
-				return AnyT()
-			case 1:
-				return OptionT(PtrT(g.leaf(in)), true)
-			}
-			return OptionT(SliceT(g.leaf(in)), true)
 		}
 	}
 	switch g.R.IntN(20) {
